@@ -59,8 +59,13 @@ LSN_ALL_KINDS = '{"rfwd", "rsrv", "rpath", "lfwd", "socks", "lpath"}'
 LSN_DEFAULT = dict(N=3, MaxConn=2, KindSet='{"rfwd", "lfwd", "rpath", "socks"}',
                    HostSet='{"h1", "h2"}', PortSet='{"dyn", "P"}',
                    WirePortZero='FALSE', KeepClosed='FALSE')
+X11_DEFAULT = dict(N=3, MaxX=3, ServerAllows='TRUE', AtomicOpen='FALSE',
+                   KeepClosedCookies='FALSE')
+X11_INVS = ['ServedOnlyLive', 'LiveIsServed', 'ValidExact', 'RegExact',
+            'ClientListener', 'ServerListener', 'Published', 'SingleOnce']
 DEFAULTS = {'Forward': FWD_DEFAULT, 'Socks': SOCKS_DEFAULT,
-            'ForwardPerm': PERM_DEFAULT, 'Listeners': LSN_DEFAULT}
+            'ForwardPerm': PERM_DEFAULT, 'Listeners': LSN_DEFAULT,
+            'X11': X11_DEFAULT}
 LSN_INVS = ['Routing', 'ClosedRefuses', 'RegistryExact', 'AddressesDistinct']
 
 FWD_INVS_ASIS = ['TypeOK', 'RelayFIFO', 'Complete', 'HalfClose', 'Teardown',
@@ -219,6 +224,33 @@ LSN_REGRESSIONS = [
     ('all kinds together',
      _lsn_schedule([LC('rfwd'), LC('lfwd'), LC('rpath', '-', '-'),
                     LC('rsrv')], [4, 2])),
+]
+
+# X11 forwarding: fixed schedules (model-free labels)
+XR, XA, XC = (lambda s, sc=False: ('request', s, sc)), \
+    (lambda s: ('answer', s)), (lambda s: ('close', s))
+XX = lambda p, form='ok': ('xconn', p, form)
+X11_REGRESSIONS = [
+    ('cookie of a closed session while another session keeps the listener',
+     [XR(1), XA(1), XR(2), XA(2), XX(1), XX(2), XC(1), XX(1), XX(2),
+      XX(1, 'bigendian'), XX(1, 'wrongproto'), XC(2), XX(2)]),
+    ('second session closed first',
+     [XR(1), XA(1), XR(2), XA(2), XC(2), XX(2), XX(1), XX(2, 'bigendian'),
+      XC(1), XX(1)]),
+    ('three sessions, the middle one closes',
+     [XR(1), XA(1), XR(2), XA(2), XR(3), XA(3), XX(2), XC(2), XX(2), XX(3),
+      XX(1), XC(1), XX(1), XX(2), XX(3)]),
+    ('single_connection cookie is good once',
+     [XR(1, True), XA(1), XR(2), XA(2), XX(1), XX(1), XX(2), XC(1), XX(1),
+      XX(2)]),
+    ('single_connection session closed unused',
+     [XR(1), XA(1), XR(2, True), XA(2), XC(2), XX(2), XX(1)]),
+    ('garbage, wrong protocol name, truncated, byte orders',
+     [XR(1), XA(1), XX(0), XX(0, 'bigendian'), XX(0, 'wrongproto'),
+      XX(0, 'truncated'), XX(1, 'truncated'), XX(1, 'wrongproto'),
+      XX(1, 'bigendian'), XX(3), XX(1, 'pipelined'), XX(0, 'pipelined')]),
+    ('listener torn down and created again',
+     [XR(1), XA(1), XX(1), XC(1), XX(1), XR(2), XA(2), XX(1), XX(2)]),
 ]
 
 # ----------------------------------------------------------------------
@@ -384,6 +416,19 @@ def main(ctx):
                         expect='NeverOlderDynamic'))
         jobs.append(Job('listeners witness port in use', 'Listeners', {},
                         ['NeverFailedOpen'], expect='NeverFailedOpen'))
+    # X11 forwarding
+    jobs.append(Job('x11 rules', 'X11', dict(MaxX=2 if quick else 3),
+                    X11_INVS, workers=4))
+    jobs.append(Job('x11 sensitivity KeepClosedCookies', 'X11',
+                    dict(KeepClosedCookies='TRUE', MaxX=2),
+                    ['ServedOnlyLive'], expect='ServedOnlyLive'))
+    if not quick:
+        jobs.append(Job('x11 rules, server refuses', 'X11',
+                        dict(ServerAllows='FALSE'), X11_INVS))
+        for wname in ['NeverServed', 'NeverClosedCookieRefused',
+                      'NeverSingleReuse']:
+            jobs.append(Job(f'x11 witness {wname}', 'X11', {}, [wname],
+                            expect=wname))
     # ForwardPerm
     jobs.append(Job('perm table', 'ForwardPerm', {}, PERM_INVS, workers=1,
                     dump=True))
@@ -428,7 +473,14 @@ def main(ctx):
             dict(N=4, MaxConn=7, KindSet='{"rfwd", "rsrv", "lfwd", "socks"}',
                  HostSet='{"h1"}', PortSet='{"dyn", "P"}'),
             simulate=nl, depth=14, view=False)]
-    run_jobs(ctx, jobs + sims + lsims, parallel=6)
+    nxs = 40 if quick else 400
+    xsims = [Job('x11 sim', 'X11', dict(MaxX=6, AtomicOpen='TRUE'),
+                 simulate=nxs, depth=16, view=False)]
+    if not quick:
+        xsims.append(Job('x11 sim refused', 'X11',
+                         dict(MaxX=3, AtomicOpen='TRUE', ServerAllows='FALSE'),
+                         simulate=40, depth=10, view=False))
+    run_jobs(ctx, jobs + sims + lsims + xsims, parallel=6)
     jobmap = {j.name: j for j in jobs + sims}
 
     phase('tlc')
@@ -614,6 +666,51 @@ def main(ctx):
                 ctx.divergence(f'real-loop scenario {kind}/{pattern} did not '
                                f'complete: {err}')
         ctx.traces_validated(12)
+
+    # ---- 4d. X11 forwarding ------------------------------------------------
+    os.makedirs(tlc.WORK, exist_ok=True)
+
+    def judge_x11(r, rp):
+        for clause, detail, cause in r['l1']:
+            finds.add('X11', clause, cause,
+                      f'{detail}; schedule {" ".join(r["script"])}', rp,
+                      len(r['script']))
+        for e in r.get('loop_exceptions', []):
+            finds.add('X11', 'Exception', e[:60],
+                      f'exception reached the event loop: {e}; schedule '
+                      f'{" ".join(r["script"])}', rp, len(r['script']))
+        if not r['l1'] and r.get('diverged'):
+            ctx.divergence(f'X11: {r["diverged"]} schedule='
+                           f'{" ".join(r["script"])}')
+
+    nx11 = 0
+    seen_x = set()
+    for j in xsims:
+        allows = j.consts['ServerAllows'] == 'TRUE'
+        for tr in j.traces:
+            labels = [l for l, _ in tr]
+            key = json.dumps(labels)
+            if key in seen_x or not any(l[0] == 'xconn' for l in labels):
+                continue
+            seen_x.add(key)
+            kw = dict(server_allows=allows, unix_display=bool(nx11 % 2),
+                      seed=ctx.seed + nx11)
+            r = F.replay_x11(tr, tlc.WORK, **kw)
+            nx11 += 1
+            ctx.count(('x11', key, kw['unix_display']))
+            if nx11 == 5:
+                ctx.sample({'module': 'X11', 'schedule': r['script']})
+            judge_x11(r, {'kind': 'x11', 'labels': labels, 'world': kw})
+    ctx.require(nx11 >= 40, f'only {nx11} distinct X11 behaviours')
+    for name, labels in X11_REGRESSIONS:
+        for ud in (False, True):
+            kw = dict(server_allows=True, unix_display=ud, seed=ctx.seed)
+            r = F.replay_x11(labels, tlc.WORK, **kw)
+            nx11 += 1
+            ctx.count(('x11-regression', name, ud))
+            judge_x11(r, {'kind': 'x11', 'labels': labels, 'world': kw})
+    ctx.traces_validated(nx11)
+    phase('x11')
 
     # ---- 4c. code -> spec: recorded natural runs validated by TLC ----------
     trace_validation(ctx, F, finds, quick, asis)
@@ -953,6 +1050,12 @@ def replay_one(ctx, F, finds):
                       'Exception', {'input': data.hex()},
                       f'exception reached the event loop: '
                       f'{obs["exceptions"][0]}', rp, 1)
+    elif kind == 'x11':
+        os.makedirs(tlc.WORK, exist_ok=True)
+        r = F.replay_x11([tuple(l) for l in rp['labels']], tlc.WORK,
+                         **rp['world'])
+        for clause, detail, cause in r['l1']:
+            finds.add('X11', clause, cause, detail, rp, 1)
     elif kind == 'natural':
         args = {k: rp[k] for k in ('seed', 'kind', 'nconn', 'mode')}
         r = F.record_natural(**args)
